@@ -30,7 +30,7 @@ def readbe(b: bytes) -> int:
 
 def roundup(offset: int, alignment: int) -> int:
     """Round up a number to a provided alignment."""
-    return int(ceil(offset / alignment) * alignment)
+    return -(-offset // alignment) * alignment
 
 def decompose(flag, value):
     """Extract all members from the value."""
